@@ -255,7 +255,9 @@ McAfterRk(cfg, cer, store, nnew) ==
     IF cer.req.pinAuth THEN Ended(cer, store, nnew, EndErr(UnsupportedOption))
     ELSE LET hm == NewSecrets(cfg, cer.req)
              p == McPrf(cfg, cer.req, hm)
-             c == [id |-> "n" \o ToString(nnew + 1), rp |-> cer.req.rp, user |-> "?", ctr |-> NoCtr, hm |-> hm]
+             \* the credential id is drawn here but becomes observable only when the credential is saved;
+             \* the abstract name is assigned in order of appearance (at the save)
+             c == [id |-> "pending", rp |-> cer.req.rp, user |-> "?", ctr |-> NoCtr, hm |-> hm]
          IN IF p.err # 0 THEN Ended(cer, store, nnew, EndErr(p.err))
             ELSE InfoStep(cfg, [cer EXCEPT !.newc = c, !.prf = p], store, nnew, "mc.info")
 
@@ -286,7 +288,8 @@ McStep(cfg, cer, store, nnew) ==
            IF cfg.disc = "nondisc" THEN Ended(cer, store, nnew, EndErr(UnsupportedOption))
            ELSE McAfterRk(cfg, cer, store, nnew)
       [] cer.pc = "mc.info" ->
-           LET c == [cer.newc EXCEPT !.user = IF Discoverable(cfg, cer.req.rk) THEN cer.req.user ELSE "none",
+           LET c == [cer.newc EXCEPT !.id = "n" \o ToString(nnew + 1),
+                                     !.user = IF Discoverable(cfg, cer.req.rk) THEN cer.req.user ELSE "none",
                                      !.ctr = IF cfg.counterOn THEN Ctr(0, 0) ELSE NoCtr]
            IN LET r == WriteStep(cfg, [cer EXCEPT !.newc = c], store, nnew, "mc.saved", "save", c)
               IN [r EXCEPT !.nnew = IF r.ev.ev = "Cancel" THEN nnew ELSE nnew + 1]
